@@ -9,7 +9,9 @@ def runLineT (line : String) : String :=
   | some r => r
   | none => match opTree2 toks with
     | some r => r
-    | none => "bad-op"
+    | none => match opTree3 toks with
+      | some r => r
+      | none => "bad-op"
 
 partial def loopT (hin hout : IO.FS.Stream) : IO Unit := do
   let line ← hin.getLine
